@@ -56,6 +56,14 @@ class Results:
         else:
             self.fail(clause, detail, replay, backend)
 
+    def bounded(self, clause, ok, detail="", replay=None):
+        """bounded stand-in: a failure is a violation (it comes with a concrete input); a
+        pass is recorded with count 0 -- never counted as a discharged proof obligation"""
+        if ok:
+            self._add(clause, DISCHARGED, "bounded", detail, count=0)
+        else:
+            self._add(clause, FAILED, "bounded", detail, replay)
+
     def canary(self, clause, refuted, detail=""):
         """an obligation that is false by construction: the engine must refute it"""
         self._add(clause, DISCHARGED if refuted else ERROR, "canary",
